@@ -61,6 +61,16 @@ for pid in sorted(md.CLAIMED):
         else:
             c["text"] = c["text"] + "  Round 8: " + text + "."
         c["technique"] = c["technique"] + "; " + tech
+    add8t = getattr(md, "ADDENDA_R8T", {}).get(pid)
+    if add8t:
+        ref, text, tech = add8t
+        c["design_ref"] = c["design_ref"] + ", " + ref
+        if "  Not decided:" in c["text"]:
+            head, tail = c["text"].split("  Not decided:", 1)
+            c["text"] = head + "  Round-8 triage: " + text + ".  Not decided:" + tail
+        else:
+            c["text"] = c["text"] + "  Round-8 triage: " + text + "."
+        c["technique"] = c["technique"] + "; " + tech
     checks.append({
         "property_id": pid,
         "quick_cmd": "./check %s --tier quick" % pid,
